@@ -106,8 +106,9 @@ FiOwner(fi) == IF fi.owner = "" THEN "root" ELSE fi.owner
 FiGroup(fi) == IF fi.group = "" THEN "root" ELSE fi.group
 
 (* entry mtime: declared, else package mtime, else the source's on disk *)
+(* ctx.pmtset: a package mtime is configured (mtime: or SOURCE_DATE_EPOCH), ctx.pmt its value - which may be 0 *)
 EntryMt(ctx, fi, srcmt) ==
-  IF fi.mt # 0 THEN fi.mt ELSE IF ctx.pmt # 0 THEN ctx.pmt ELSE srcmt
+  IF fi.mt # 0 THEN fi.mt ELSE IF ctx.pmtset THEN ctx.pmt ELSE srcmt
 
 FileMode(ctx, fi, srcmode) ==
   IF fi.mode # 0 THEN fi.mode ELSE BitClear(srcmode, ctx.umask)
@@ -224,7 +225,7 @@ TreeIns(ctx, e) ==
                    [] OTHER ->
                       [type |-> "file", src |-> n.p, owner |-> FiOwner(e.fi), group |-> FiGroup(e.fi),
                        mode |-> FileMode(ctx, e.fi, n.mode),
-                       mt |-> IF ctx.pmt # 0 THEN ctx.pmt ELSE n.mt, tag |-> "", size |-> n.size]]
+                       mt |-> IF ctx.pmtset THEN ctx.pmt ELSE n.mt, tag |-> "", size |-> n.size]]
       S == { one(n) : n \in TreeNodes(ctx, e) }
   IN SortByDepth(S)
 
